@@ -86,7 +86,7 @@ class Driver:
         if kind == "array":
             v = rng.choice(d["vars"])
             if rng.random() < 0.5:
-                n = int(v["fmt"][:-1] or 1) if v["fmt"] != "x" else 1
+                n = int(v["fmt"].lstrip("<>!")[:-1] or 1) if v["fmt"] != "x" else 1
                 if v["fmt"] == "x":
                     val = rng.randint(-10 ** 6, 10 ** 6) / 100
                 elif n > 1:
@@ -189,7 +189,7 @@ def sync_group_ops(fk, rng):
 
 
 def one_config(rng, env, nops, with_sync):
-    decl = mapdecl.rand_decl(rng)
+    decl = mapdecl.rand_decl(rng, ordered=0.5)   # half of the declarations also use formats with a byte order
     fk = fakekernel.FakeKernel(possible=env["possible"], online=env["online"], affinity=env.get("affinity"),
                                 pin=env.get("pin"))
     with fk:
@@ -346,7 +346,7 @@ CHECK_DEADLOCK FALSE
                         event={f: e[f] for f in EVFIELDS}, declval=e.get("declval"), declkey=e.get("declkey"),
                         found=dict(key=e.get("khow"), val=e.get("vhow"), next=e.get("nhow")),
                         kernel_transfers=need, decl=m["decl"], ident=m["ident"], index=idx)
-            ctx.case_failed(case, f"{why}: {(e.get('label') or {}).get('op')} fmt={e.get('fmt')!r} -> bpf "
+            ctx.case_failed(case, f"{why}: {(e.get('label') or {}).get('op')} fmt={(e.get('label') or {}).get('fmt') or e.get('fmt')!r} -> bpf "
                                   f"{e['op']} on {e['type']} map (key {e['ks']}, value {e['vs']}) with key buffer "
                                   f"{e['keybuf']}, value buffer {e['valbuf']}, next-key buffer {e['nextbuf']}; "
                                   f"possible CPUs {m['env']['possible']}, online {m['env'].get('online') or m['env'].get('online_seen')}, "
